@@ -188,7 +188,7 @@ def check_C15(tier, seed):
     w.build_pigeon()
     cat = cores.class_catalogue()
     if tier == "quick":
-        N, tmo = 2, 60
+        N, tmo = 2, 180
     else:
         N, tmo = 3, 900
     cat = cat + cores.random_classes(seed, 40 if tier == "quick" else 150)
@@ -242,7 +242,7 @@ def run_ref_property(prop, tier, seed, cat, hprops, Nq, Nt, tq=60, tt=900, flags
     w = Work()
     w.build_pigeon()
     quick = tier == "quick"
-    N, tmo = (Nq, tq) if quick else (Nt, tt)
+    N, tmo = (Nq, 2 * tq + 60) if quick else (Nt, tt)  # generous wall budget per job (loaded hosts)
     fss = flagsets_q if quick else flagsets_t
     cases = []
     use = cat[::quick_stride] if quick else cat
@@ -327,7 +327,7 @@ def check_C10(tier, seed):
     w = Work()
     w.build_pigeon()
     quick = tier == "quick"
-    N, tmo = (3, 60) if quick else (4, 900)
+    N, tmo = (3, 180) if quick else (4, 900)
     pc = cores.pair_core()
     groups = [
         (pc[::4] if quick else pc, [[], ["-optimize-basic-latin"]]),
@@ -368,7 +368,7 @@ def check_C09(tier, seed):
     w = Work()
     w.build_pigeon()
     quick = tier == "quick"
-    N, tmo = (4, 120) if quick else (5, 1800)
+    N, tmo = (4, 300) if quick else (5, 1800)
     cat = cores.opt_catalogue() + cores.composites() + cores.context_catalogue() + cores.throw_catalogue() + (cores.pair_core()[::5] if quick else cores.pair_core())
     cases = []
     for g in cat:
@@ -430,7 +430,7 @@ def check_C06(tier, seed):
     w = Work()
     w.build_pigeon()
     quick = tier == "quick"
-    N, tmo = (3, 90) if quick else (4, 900)
+    N, tmo = (3, 240) if quick else (4, 900)  # (wall budgets per job are generous: a loaded host must not turn a pass into INCONCLUSIVE)
     pc = cores.pair_core()
     cat = cores.memo_catalogue() + (pc[::4] if quick else pc) + cores.composites() + cores.fail_catalogue() + [g for g in cores.context_catalogue() if not gspec.uses_state(g)]
     cat = cat + rnd_cat(tier, seed, 12, 150)
